@@ -289,6 +289,12 @@ func TestPropIdentityPropagation(t *testing.T) {
 					}
 				}
 			}
+			// a health probe that was in flight on the old transport fails with "context canceled" and marks the
+			// endpoint unhealthy until the next probe: wait for readiness, this check is about identities
+			if !gateway.WaitReady("alpha", func(string) bool { return true }, 15*time.Second) {
+				sub.Inconclusive()
+				t.Skip("endpoint not ready after the transport reset")
+			}
 			sub.Class("request-after-a-transport-reset")
 		}
 		resp := gateway.Do(ctx, rr)
